@@ -83,6 +83,9 @@ def make_scenario(rng, cls):
     sc["events"] = ev
     if rng.random() < 0.35:
         sc["names"] = [rng.choice(["x", "x", "y", None]) for _ in range(npts)]
+    if cls != "BlockSmoothConvexFunction" and sc["params"] and rng.random() < 0.15:
+        from pv.classes import json_params
+        sc["declared_with"] = json_params(sampler(rng))
     if rng.random() < 0.3 and cls not in ("ConvexQGFunction", "RsiEbFunction"):
         sc["intermediate_solve_after"] = rng.randint(1, max(1, len(ev) - 1))
     return sc
@@ -120,7 +123,14 @@ def execute(sc, order):
         params["partition"] = part
     labels = {}
     n_before_decl = (len(Point.list_of_leaf_points), len(Expression.list_of_leaf_expressions))
-    f = pep.declare_function(get_class(cls), **params)
+    if sc.get("declared_with"):
+        # declared with other parameter values, then the documented attributes are set to the scenario's parameters
+        # (a parameter sweep on one object): the conditions are those of the CURRENT values
+        f = pep.declare_function(get_class(cls), **real_params(sc["declared_with"]))
+        for k_, v_ in params.items():
+            setattr(f, k_, v_)
+    else:
+        f = pep.declare_function(get_class(cls), **params)
 
     def snapshot():
         return len(Point.list_of_leaf_points), len(Expression.list_of_leaf_expressions)
